@@ -37,7 +37,7 @@ def generate(rng, tier):
     op = rng.choice(OPS)
     nrow = gen.gen_nrow(rng, big=(tier == "thorough"))
     hostile = 0.6 if op == "unique" else 0.25
-    spec = gen.gen_frame_spec(rng, nrow=nrow, rid="_rid_", hostile=hostile, tags=tags, kinds=gen.KINDS_KEY + ["timedelta", "float32"])
+    spec = gen.gen_frame_spec(rng, nrow=nrow, rid="_rid_", hostile=hostile, tags=tags, kinds=gen.KINDS_KEY + ["timedelta", "float32", "uint64"])
     case = {"op": op, "spec": spec, "tags": sorted(tags)}
     cols = [s[0] for s in spec if s[0] != "_rid_"]
     if op in ("filter", "filter_out"):
